@@ -2,7 +2,7 @@
 import solvercheck, framework
 PID = "C02"
 MODULE = "MysticVerif.Props.C02Solve"
-THEOREMS = ["MysticVerif.C02.evalB_in_box", "MysticVerif.C02.de_evaluations_in_box", "MysticVerif.C02.de_best_in_box", "MysticVerif.C02.nm_evaluations_in_box", "MysticVerif.C02.nm_best_in_box_of_fixed", "MysticVerif.C02.clip1_in_box", "MysticVerif.C02.clip1_id", "MysticVerif.C02.pw_evaluations_in_box", "MysticVerif.C02.pw_best_in_box", "MysticVerif.C02.uniform_in_range", "MysticVerif.C02.random_initial_points_in_limits", "MysticVerif.C02.clipGuess_in_box", "MysticVerif.C02.clipGuess_id_inside", "MysticVerif.C02.clipCoord_in_range", "MysticVerif.C02.solve_de_in_box", "MysticVerif.C02.solve_nm_in_box", "MysticVerif.C02.solve_pw_in_box", "MysticVerif.Reconfig.reconfigured_evaluations_segmented", "MysticVerif.Reconfig.reconfigured_evaluations_in_box"]
+THEOREMS = ["MysticVerif.C02.evalB_in_box", "MysticVerif.C02.de_evaluations_in_box", "MysticVerif.C02.de_best_in_box", "MysticVerif.C02.nm_evaluations_in_box", "MysticVerif.C02.nm_best_in_box_of_fixed", "MysticVerif.C02.clip1_in_box", "MysticVerif.C02.clip1_id", "MysticVerif.C02.pw_evaluations_in_box", "MysticVerif.C02.pw_best_in_box", "MysticVerif.C02.uniform_in_range", "MysticVerif.C02.random_initial_points_in_limits", "MysticVerif.C02.clipGuess_in_box", "MysticVerif.C02.clipGuess_id_inside", "MysticVerif.C02.clipCoord_in_range", "MysticVerif.C02.solve_de_in_box", "MysticVerif.C02.solve_nm_in_box", "MysticVerif.C02.solve_pw_in_box", "MysticVerif.Reconfig.reconfigured_evaluations_segmented", "MysticVerif.Reconfig.reconfigured_evaluations_in_box", "MysticVerif.Reconfig.nm_reconfigured_evaluations_segmented", "MysticVerif.Reconfig.nm_reconfigured_evaluations_in_box"]
 
 
 def run_shard(pid, seed, shard, ncases, tier, extra):
